@@ -66,6 +66,18 @@ func c12Build(id int, raw json.RawMessage) *Job {
 // c12JobFor asks the four questions at every recorded occurrence of a rendered workspace.
 func c12JobFor(id int, r *scRender, tc *scCase) *Job {
 	pc := &proto.Case{ID: id, Files: r.files(), Init: json.RawMessage(allOnLocal)}
+	nonEmpty := 0
+	for _, t := range r.Text {
+		if strings.TrimSpace(t) != "" {
+			nonEmpty++
+		}
+	}
+	if nonEmpty == 1 && strings.TrimSpace(r.Text[0]) != "" && hash64(strings.Join(r.Text, "\x00"), scSeed)%3 == 0 {
+		// every third single-file workspace names its file as project entry: the project pass then analyses it a second
+		// way (workspaces in which only some files belong to the project are left out: which globals a project file sees
+		// across the project boundary is not settled by the statement)
+		pc.Files["luahelper.json"] = fmt.Sprintf(`{"ShowWarnFlag":1,"ProjectFiles":[%q]}`, r.Files[0])
+	}
 	for i, f := range r.Files {
 		pc.Steps = append(pc.Steps, openStep(f, r.Text[i]))
 	}
